@@ -21,6 +21,15 @@
 open Model
 open Conv
 
+(* a malformed line must not kill the driver process *)
+let sc_register tag f =
+  register tag (fun args ->
+    try f args with
+    | Failure m -> "EXN " ^ m
+    | Scanf.Scan_failure m -> "EXN scan " ^ m
+    | End_of_file | Not_found -> "EXN parse"
+    | Invalid_argument m -> "EXN " ^ m)
+
 let sc_cm_of_name = function "gray16" -> 1 | "gray" -> 2 | "rgba" -> 3 | _ -> 0
 let sc_name_of_cm = function 1 -> "gray16" | 2 -> "gray" | 3 -> "rgba" | _ -> "other"
 
@@ -113,7 +122,7 @@ let sc_show_status = function
   | Ok _ -> "OK" | Err -> "ERR" | Panic -> "PANIC" | OutOfFuel -> "OUTOFFUEL"
 
 (* ---- model: sc ---- *)
-let () = register "sc" (fun args ->
+let () = sc_register "sc" (fun args ->
   match args with
   | _spec :: rest ->
     let (steps, desc) = sc_split_at "|" rest in
@@ -129,7 +138,7 @@ let () = register "sc" (fun args ->
 let sc_parse_coord c = Scanf.sscanf c "%d,%d" (fun a b -> (a, b))
 
 (* ---- model: scat (huge images, sampled pixels) ---- *)
-let () = register "scat" (fun args ->
+let () = sc_register "scat" (fun args ->
   match args with
   | _spec :: rest ->
     let (front, desc) = sc_split_at "|" rest in
@@ -170,7 +179,7 @@ let sc_classify = function
   | "OK" :: toks -> ROk toks
   | l -> RBad (String.concat " " l)
 
-let () = register "scspec" (fun args ->
+let () = sc_register "scspec" (fun args ->
   let (steps, rest) = sc_split_at "|" args in
   let (desc, results) = sc_split_at "=>" rest in
   let (src, white, _) = sc_parse_desc desc in
@@ -203,7 +212,7 @@ let () = register "scspec" (fun args ->
 
 let rec sc_take n l = if n <= 0 then [] else match l with [] -> [] | x :: t -> x :: sc_take (n - 1) t
 
-let () = register "scatspec" (fun args ->
+let () = sc_register "scatspec" (fun args ->
   let (front, rest) = sc_split_at "|" args in
   let (steps, coords) = sc_split_at "@" front in
   let coords = List.map sc_parse_coord coords in
@@ -255,3 +264,6 @@ let () = register "scatspec" (fun args ->
   in
   ignore reqs;
   go 0 src reqs results)
+
+(* the implementation panicked / printed no result: scale_spec admits only Ok or Err *)
+let () = sc_register "scpanic" (fun _ -> "REJECT the implementation panicked or printed no result")
